@@ -1,6 +1,7 @@
 (* Corr/C20.v — comparison used by the generated cases_C20_*.v files.
    A case = one construction sequence over one front-end, every call paired with what
-   the implementation returned (ok / error class / panic), plus the observed flag
+   the implementation returned (ok / error class / panic) and with the builder's state
+   after the call (canonical snapshot, see below), plus the observed flag
    "every runnable obtained from a successful Compile still gave the snapshotted outputs
    after all later calls".  The model is run call by call; a case is bad when a call's
    outcome class differs or when the model's prediction about the runners differs.
@@ -8,7 +9,8 @@
    Workflow.compile iterates a Go map; which node's deferred error is met first is not
    determined by the call sequence.  The model takes that order as the argument [ord]
    of [WCompile]; the comparison accepts an observation iff SOME order reproduces it
-   (tried: the default order and every node first), and continues from that state. *)
+   (tried: the nodes the Compile consumed, then every node next), and continues from
+   that state. *)
 From Eino Require Import Base.Util Model.Builder.
 
 Inductive obs : Type := BOk | BErr (e : ecls) | BPanic.
@@ -20,6 +22,71 @@ Definition matches (o : outcome) (b : obs) : bool :=
   | OPanic, BPanic => true
   | _, _ => false
   end.
+
+(* ---------------------------------------------------------------- state snapshots *)
+(* Canonical rendering of a builder state as a sorted list of tagged strings; the harness
+   renders the implementation's state (read through compose/verif_c20.go) the same way and
+   the two are compared after EVERY call.  Once the build error is set the graph part
+   shrinks to the error class: the partial effects of a failing addBranch / addEdge depend
+   on Go's map order and nothing can read them any more. *)
+Local Open Scope string_scope.
+
+Definition ecls_str (e : ecls) : string :=
+  match e with
+  | EReserved => "EReserved" | EDupNode => "EDupNode" | ENeedState => "ENeedState"
+  | ENodeKeyOpt => "ENodeKeyOpt" | ENoCtrlNoData => "ENoCtrlNoData" | EEndAsStart => "EEndAsStart"
+  | EStartAsEnd => "EStartAsEnd" | EEdgeStartUnknown => "EEdgeStartUnknown"
+  | EEdgeEndUnknown => "EEdgeEndUnknown" | EDupCtrlEdge => "EDupCtrlEdge" | EDupDataEdge => "EDupDataEdge"
+  | EBranchStartUnknown => "EBranchStartUnknown" | EBranchOne => "EBranchOne"
+  | EBranchEndUnknown => "EBranchEndUnknown" | ECompiled => "ECompiled"
+  | ETriggerUnsupported => "ETriggerUnsupported" | ENoStart => "ENoStart" | ENoEnd => "ENoEnd"
+  | EUninferred => "EUninferred" | EDupMapTarget => "EDupMapTarget" | EDagLoop => "EDagLoop"
+  | EMaxStepsDag => "EMaxStepsDag" | EChainCompiled => "EChainCompiled" | EChainEmpty => "EChainEmpty"
+  | EParDupKey => "EParDupKey" | EParTooFew => "EParTooFew" | EParMultiPrev => "EParMultiPrev"
+  | EBrDupKey => "EBrDupKey" | EBrEmpty => "EBrEmpty" | EBrOne => "EBrOne" | EBrMultiPrev => "EBrMultiPrev"
+  | EMapped => "EMapped" | EMapConflict => "EMapConflict" | EOther => "EOther"
+  end.
+
+Definition sorts (l : list string) : list string := sort_by string_ltb l.
+Definition join (sep : string) (l : list string) : string :=
+  match l with [] => "" | x :: r => fold_left (fun acc y => acc +++ sep +++ y) r x end.
+Definition b2s (b : bool) (t f : string) : string := if b then t else f.
+Definition len_str {A} (l : list A) : string := nat_str (N.of_nat (List.length l)).
+Definition pair_str (p : string * string) : string := fst p +++ ">" +++ snd p.
+
+Definition snap_graph (g : gstate) : list string :=
+  match g_err g with
+  | Some e => ["X:" +++ ecls_str e]
+  | None =>
+    map (fun kn => "N:" +++ fst kn +++ ":" +++ b2s (n_in (snd kn)) "i" "-" +++ b2s (n_out (snd kn)) "o" "-") (g_nodes g)
+    ++ map (fun p => "C:" +++ pair_str p) (g_ctrl g)
+    ++ map (fun p => "D:" +++ pair_str p) (g_data g)
+    ++ map (fun b => "B:" +++ fst b +++ ">" +++ join "," (sorts (fst (snd b))) +++ "|" +++ b2s (snd (snd b)) "n" "d") (g_branches g)
+    ++ map (fun k => "S:" +++ k) (g_starts g)
+    ++ map (fun k => "E:" +++ k) (g_ends g)
+    ++ map (fun p : pend => "P:" +++ pair_str (fst p) +++ "#" +++ len_str (snd p)) (g_pending g)
+    ++ map (fun kf => "F:" +++ fst kf +++ ":" +++ join "," (sorts (snd kf))) (g_fm g)
+    ++ map (fun p => "H:" +++ pair_str p) (g_h_edges g)
+    ++ map (fun k => "R:" +++ k) (g_h_prenode g)
+    ++ map (fun k => "Q:" +++ k) (g_h_prebranch g)
+  end ++ (if g_compiled g then ["K:t"] else []).
+
+Definition snap_chain (c : cstate) : list string :=
+  snap_graph (c_g c)
+  ++ match c_err c with Some e => ["ce:" +++ ecls_str e] | None => [] end
+  ++ ["ci:" +++ nat_str (c_idx c)]
+  ++ map (fun k => "cp:" +++ k) (c_pre c)
+  ++ (if c_has_end c then ["ch:t"] else []).
+
+Definition snap_wf (w : wstate) : list string :=
+  snap_graph (w_g w)
+  ++ map (fun kn => "wn:" +++ fst kn +++ "#" +++ len_str (wn_pending (snd kn)) +++ ":" +++
+                    match wn_mapped (snd kn) with
+                    | MNone => "" | MWhole => "*" | MFields fs => join "," (sorts fs)
+                    end) (w_nodes w)
+  ++ ["wb:" +++ len_str (w_branches w)].
+
+Local Open Scope list_scope.
 
 Fixpoint list_eqb {A} (eqb : A -> A -> bool) (a b : list A) : bool :=
   match a, b with
@@ -45,53 +112,70 @@ Definition note (g : gstate) (o : outcome) (rs : issued) : issued :=
 Definition all_intact (g : gstate) (rs : issued) : bool :=
   forallb (fun rv => view_eqb (runner_view g (fst rv)) (snd rv)) rs.
 
-(* result of replaying a case: None = a call's outcome differed *)
-Fixpoint replay_g (v : ver) (g : gstate) (cs : list (gcall * obs)) (rs : issued) : option bool :=
+(* what one call showed: its outcome and how the builder state changed — the snapshot
+   entries that disappeared and those that appeared (a full snapshot per call would make the
+   generated files five times larger) *)
+Definition seen : Type := (obs * (list string * list string))%type.
+
+Fixpoint remove1 (x : string) (l : list string) : list string :=
+  match l with [] => [] | y :: r => if String.eqb x y then r else y :: remove1 x r end.
+Definition apply_diff (prev : list string) (d : list string * list string) : list string :=
+  sorts (fold_left (fun l x => remove1 x l) (fst d) prev ++ snd d).
+Definition same_state (model observed : list string) : bool := list_eqb String.eqb (sorts model) observed.
+
+(* result of replaying a case: None = a call's outcome or the state after it differed;
+   [prev]: the implementation's state before the call, as reconstructed so far *)
+Fixpoint replay_g (v : ver) (g : gstate) (prev : list string) (cs : list (gcall * seen)) (rs : issued) : option bool :=
   match cs with
   | [] => Some (all_intact g rs)
-  | (c, b) :: rest =>
+  | (c, (b, d)) :: rest =>
     let '(g', o) := gstep v g c in
-    if matches o b then replay_g v g' rest (note g' o rs) else None
+    let st := apply_diff prev d in
+    if matches o b && same_state (snap_graph g') st then replay_g v g' st rest (note g' o rs) else None
   end.
 
-Fixpoint replay_c (v : ver) (c : cstate) (cs : list (ccall * obs)) (rs : issued) : option bool :=
+Fixpoint replay_c (v : ver) (c : cstate) (prev : list string) (cs : list (ccall * seen)) (rs : issued) : option bool :=
   match cs with
   | [] => Some (all_intact (c_g c) rs)
-  | (call, b) :: rest =>
+  | (call, (b, d)) :: rest =>
     let '(c', o) := cstep v c call in
-    if matches o b then replay_c v c' rest (note (c_g c') o rs) else None
+    let st := apply_diff prev d in
+    if matches o b && same_state (snap_chain c') st then replay_c v c' st rest (note (c_g c') o rs) else None
   end.
 
-(* first order, among the default and "node k first", whose outcome matches *)
-Fixpoint pick_order (v : ver) (w : wstate) (o : copt) (b : obs) (cands : list (list string))
+(* first order among the candidates whose outcome and resulting state match *)
+Fixpoint pick_order (v : ver) (w : wstate) (o : copt) (b : obs) (st : list string) (cands : list (list string))
   : option (wstate * outcome) :=
   match cands with
   | [] => None
   | ord :: rest =>
     let '(w', out) := w_compile v w o ord in
-    if matches out b then Some (w', out) else pick_order v w o b rest
+    if matches out b && same_state (snap_wf w') st then Some (w', out) else pick_order v w o b st rest
   end.
 
-Fixpoint replay_w (v : ver) (w : wstate) (cs : list (wcall * obs)) (rs : issued) : option bool :=
+(* [ord] of an observed WCompile: the nodes whose deferred inputs that Compile consumed
+   (sorted); the node it failed on, if any, is not known: every node is tried next *)
+Fixpoint replay_w (v : ver) (w : wstate) (prev : list string) (cs : list (wcall * seen)) (rs : issued) : option bool :=
   match cs with
   | [] => Some (all_intact (w_g w) rs)
-  | (call, b) :: rest =>
+  | (call, (b, d)) :: rest =>
+    let st := apply_diff prev d in
     match call with
     | WCompile o ord =>
-      match pick_order v w o b (ord :: map (fun kn => [fst kn]) (w_nodes w)) with
-      | Some (w', out) => replay_w v w' rest (note (w_g w') out rs)
+      match pick_order v w o b st (ord :: map (fun kn => ord ++ [fst kn]) (w_nodes w)) with
+      | Some (w', out) => replay_w v w' st rest (note (w_g w') out rs)
       | None => None
       end
     | _ =>
       let '(w', o) := wstep v w call in
-      if matches o b then replay_w v w' rest (note (w_g w') o rs) else None
+      if matches o b && same_state (snap_wf w') st then replay_w v w' st rest (note (w_g w') o rs) else None
     end
   end.
 
 Inductive ccase : Type :=
-| CaseG (has_state : bool) (calls : list (gcall * obs)) (intact : bool)
-| CaseC (has_state : bool) (calls : list (ccall * obs)) (intact : bool)
-| CaseW (has_state : bool) (calls : list (wcall * obs)) (intact : bool).
+| CaseG (has_state : bool) (calls : list (gcall * seen)) (intact : bool)
+| CaseC (has_state : bool) (calls : list (ccall * seen)) (intact : bool)
+| CaseW (has_state : bool) (calls : list (wcall * seen)) (intact : bool).
 
 Definition verdict (r : option bool) (intact : bool) : bool :=
   match r with
@@ -101,9 +185,9 @@ Definition verdict (r : option bool) (intact : bool) : bool :=
 
 Definition bad (c : ccase) : bool :=
   match c with
-  | CaseG st calls intact => verdict (replay_g fixed (g_init CGraph st) calls []) intact
-  | CaseC st calls intact => verdict (replay_c fixed (c_init st) calls []) intact
-  | CaseW st calls intact => verdict (replay_w fixed (w_init st) calls []) intact
+  | CaseG st calls intact => verdict (replay_g fixed (g_init CGraph st) (sorts (snap_graph (g_init CGraph st))) calls []) intact
+  | CaseC st calls intact => verdict (replay_c fixed (c_init st) (sorts (snap_chain (c_init st))) calls []) intact
+  | CaseW st calls intact => verdict (replay_w fixed (w_init st) (sorts (snap_wf (w_init st))) calls []) intact
   end.
 
 Definition mismatches (cs : list ccase) : list nat := mismatches_from bad 0 cs.
